@@ -17,11 +17,12 @@
    pinned code, which uses that -1 as it is (slack of one time unit), ClampFixed = TRUE the repaired
    code, which uses max(minimal_time_step, 0). *)
 EXTENDS Integers, Sequences, FiniteSets, TLC
-CONSTANTS Confs,        \* the input files explored: records [times, maxsub, dyn, mindt]
+CONSTANTS Confs,        \* the input files explored: records [times, maxsub, dyn, mindt, maxdt]
                         \*   times  : sequence of requested times (ticks), increasing        (@Times)
                         \*   maxsub : @MaximumNumberOfSubSteps
                         \*   dyn    : @DynamicTimeStepScaling
                         \*   mindt  : @MinimalTimeStep in ticks, or minus one time unit when not given (the code's -1)
+                        \*   maxdt  : @MaximalTimeStep in ticks, 0 when not given (only used with dynamic scaling)
           Factors,      \* the factors <<n, d>> a behaviour may propose when it rejects a step
           ClampFixed
 VARIABLES cf,       \* the input file of this run (never changes)
@@ -38,6 +39,7 @@ Times == cf.times
 MaxSub == cf.maxsub
 Dynamic == cf.dyn
 MinDt == cf.mindt
+MaxDt == cf.maxdt
 
 Ti == Times[k]
 Te == Times[k + 1]
@@ -50,8 +52,12 @@ Reducible(d, o) == IF Dynamic /\ o[1] = "reject" THEN (d * o[2]) % o[3] = 0 ELSE
 Reduced(d, o) == IF Dynamic /\ o[1] = "reject" THEN (d * o[2]) \div o[3] ELSE d \div 2
                  \* a failure with dynamic scaling: rdt = max(min(0.5, r.second), min factor) = 1/2 here
 Slack == IF ClampFixed THEN (IF MinDt > 0 THEN MinDt ELSE 0) ELSE MinDt
-\* the adjustment made at the end of the loop body when the interval is not finished
-Clamp(tt, d, te) == IF Dynamic /\ d > te - tt - Slack THEN te - tt ELSE d
+\* the adjustment made at the end of the loop body when the interval is not finished:
+\*   if (maximal_time_step > 0) dt = min(dt, maximal_time_step);  if (dt > te - t - slack) dt = te - t;
+\* It is NOT applied to the first attempt of an interval (dt = te - ti whatever @MaximalTimeStep says): modelled as the
+\* code does it, see MaxStepRespected below
+Capped(d) == IF Dynamic /\ MaxDt > 0 /\ d > MaxDt THEN MaxDt ELSE d
+Clamp(tt, d, te) == IF Dynamic /\ Capped(d) > te - tt - Slack THEN te - tt ELSE Capped(d)
 TooSmall(d) == d < MinDt \/ d < 0
 
 Init == /\ cf \in Confs
@@ -102,6 +108,8 @@ TypeOK == /\ k \in 1..(Len(Times) - 1) /\ pc \in {"begin", "attempt", "decide", 
 ExactEnd == pc = "output" => t = Te
 \* ... and never integrates beyond it
 NoOvershoot == pc \in {"attempt", "decide"} => (dt > 0 /\ t + dt <= Te)
+\* @MaximalTimeStep bounds every attempt but the first one of an interval, up to the slack of the final clamp
+MaxStepRespected == (pc \in {"attempt", "decide"} /\ Dynamic /\ MaxDt > 0 /\ (sub > 0 \/ t > Ti)) => dt <= MaxDt + (IF Slack > 0 THEN Slack ELSE 0)
 \* the accepted steps tile the time axis from the first requested time to the current time
 Contiguous == /\ \A i \in 1..Len(acc) : acc[i][2] > 0
               /\ \A i \in 1..(Len(acc) - 1) : acc[i + 1][1] = acc[i][1] + acc[i][2]
